@@ -85,7 +85,7 @@ func Gen(t *rapid.T, s *Schema, o Options) Program {
 	g := &G{t: t, s: s, o: o, feats: map[string]bool{}, det: true}
 	state := &st{ordered: true, recs: s.AllRecords, fields: append([]*Field(nil), s.Fields...)}
 	var ops []string
-	n := rapid.IntRange(1, o.MaxOps).Draw(t, "nops")
+	n := 1 + Uniform(t, o.MaxOps, "nops")
 	if o.LeadingFilter {
 		ops = append(ops, g.filterOp(state))
 		n--
@@ -93,7 +93,7 @@ func Gen(t *rapid.T, s *Schema, o Options) Program {
 	for i := 0; i < n; i++ {
 		ops = append(ops, g.op(state, i == n-1))
 	}
-	if !state.ordered && g.det && rapid.IntRange(0, 99).Draw(t, "endorder") < o.EndOrdered {
+	if !state.ordered && g.det && Chance(t, o.EndOrdered, "endorder") {
 		ops = append(ops, g.restore(state))
 	}
 	p := Program{Text: strings.Join(ops, " | ")}
@@ -108,11 +108,9 @@ func Gen(t *rapid.T, s *Schema, o Options) Program {
 
 func (g *G) feat(f string) { g.feats[f] = true }
 
-func (g *G) intn(n int, label string) int { return rapid.IntRange(0, n-1).Draw(g.t, label) }
+func (g *G) intn(n int, label string) int { return Uniform(g.t, n, label) }
 
-func (g *G) chance(pct int, label string) bool {
-	return rapid.IntRange(0, 99).Draw(g.t, label) < pct
-}
+func (g *G) chance(pct int, label string) bool { return Chance(g.t, pct, label) }
 
 func pickStr(g *G, list []string, label string) string {
 	return list[g.intn(len(list), label)]
@@ -290,7 +288,7 @@ func (g *G) fieldWhere(s *st, label string, pred func(*Field) bool) *Field {
 
 func (g *G) cutOp(s *st) string {
 	g.feat("cut")
-	n := rapid.IntRange(1, 3).Draw(g.t, "ncut")
+	n := 1+Uniform(g.t, 3, "ncut")
 	var parts []string
 	var out []*Field
 	used := map[string]bool{}
@@ -329,7 +327,7 @@ func (g *G) cutOp(s *st) string {
 
 func (g *G) dropOp(s *st) string {
 	g.feat("drop")
-	n := rapid.IntRange(1, 2).Draw(g.t, "ndrop")
+	n := 1+Uniform(g.t, 2, "ndrop")
 	var parts []string
 	used := map[string]bool{}
 	for i := 0; i < n; i++ {
@@ -349,7 +347,7 @@ func (g *G) dropOp(s *st) string {
 
 func (g *G) putOp(s *st) string {
 	g.feat("put")
-	n := rapid.IntRange(1, 2).Draw(g.t, "nput")
+	n := 1+Uniform(g.t, 2, "nput")
 	var parts []string
 	used := map[string]bool{}
 	var outs []*Field
@@ -400,7 +398,7 @@ func (g *G) yieldOp(s *st) string {
 	switch g.intn(4, "yieldkind") {
 	case 0:
 		// record literal: the stream keeps holding records
-		n := rapid.IntRange(1, 3).Draw(g.t, "nyield")
+		n := 1+Uniform(g.t, 3, "nyield")
 		var parts []string
 		var out []*Field
 		used := map[string]bool{}
@@ -482,7 +480,7 @@ func (g *G) sortOp(s *st) string {
 		}
 		return pre + sb.String()
 	}
-	n := rapid.SampledFrom([]int{1, 1, 1, 2, 2, 3}).Draw(g.t, "nsortkeys")
+	n := Pick(g.t, []int{1, 1, 1, 2, 2, 3}, "nsortkeys")
 	for i := 0; i < n; i++ {
 		if i > 0 {
 			sb.WriteString(",")
@@ -502,7 +500,7 @@ func (g *G) sortOp(s *st) string {
 
 func (g *G) headTail(s *st) string {
 	pre := g.needOrder(s)
-	n := rapid.IntRange(1, 6).Draw(g.t, "headn")
+	n := 1+Uniform(g.t, 6, "headn")
 	if g.chance(60, "head?") {
 		g.feat("head")
 		if n == 1 && g.chance(50, "head-bare") {
@@ -589,12 +587,12 @@ func (g *G) summarizeOp(s *st) string {
 	g.feat("summarize")
 	limit := 0
 	if !g.o.NoLimit && g.chance(25, "limit?") {
-		limit = rapid.IntRange(1, 4).Draw(g.t, "limit")
+		limit = 1+Uniform(g.t, 4, "limit")
 	}
 	pre := ""
 	ordered := s.ordered && limit == 0
 	// keys
-	nk := rapid.SampledFrom([]int{0, 1, 1, 1, 1, 2, 2, 3}).Draw(g.t, "nkeys")
+	nk := Pick(g.t, []int{0, 1, 1, 1, 1, 2, 2, 3}, "nkeys")
 	if limit > 0 && nk == 0 {
 		nk = 1
 	}
@@ -678,7 +676,7 @@ func (g *G) summarizeOp(s *st) string {
 		out = append(out, fd)
 	}
 	// aggregates
-	na := rapid.SampledFrom([]int{1, 1, 1, 2, 2, 3}).Draw(g.t, "naggs")
+	na := Pick(g.t, []int{1, 1, 1, 2, 2, 3}, "naggs")
 	if len(keys) > 0 && g.chance(8, "noaggs") {
 		na = 0
 	}
@@ -686,7 +684,7 @@ func (g *G) summarizeOp(s *st) string {
 	for i := 0; i < na; i++ {
 		a := g.aggExpr(s, ordered)
 		name := a[:strings.Index(a, "(")]
-		if g.chance(50, "aggname") || used[name] {
+		if g.chance(50, "aggname") || used[name] || name == "and" || name == "or" {
 			name = g.freshName(s)
 			a = name + ":=" + a
 		}
@@ -758,7 +756,7 @@ func mergeFields(legs []*st) []*Field {
 
 func (g *G) forkOp(s *st) string {
 	g.feat("fork")
-	n := rapid.IntRange(2, 3).Draw(g.t, "nlegs")
+	n := 2+Uniform(g.t, 2, "nlegs")
 	var legs []*st
 	var texts []string
 	mergeKey := ""
@@ -771,7 +769,9 @@ func (g *G) forkOp(s *st) string {
 	for i := 0; i < n; i++ {
 		l := s.clone()
 		txt := g.pipeline(l, 2)
-		if mergeKey != "" && g.chance(85, "legsorted") {
+		if mergeKey != "" {
+			// Every leg of a merge ends in a sort: a leg that streams next to a leg
+			// that has to see its whole input first deadlocks the flowgraph.
 			txt += " | sort " + mergeKey
 		}
 		legs = append(legs, l)
@@ -796,7 +796,7 @@ func (g *G) forkOp(s *st) string {
 
 func (g *G) switchOp(s *st) string {
 	g.feat("switch")
-	n := rapid.IntRange(1, 3).Draw(g.t, "ncases")
+	n := 1+Uniform(g.t, 3, "ncases")
 	var legs []*st
 	var sb strings.Builder
 	exprSwitch := g.chance(30, "exprswitch")
@@ -847,7 +847,7 @@ func (g *G) joinLeg(s *st, key string) string {
 	g.nest++
 	defer func() { g.nest-- }()
 	var ops []string
-	n := rapid.IntRange(0, 2).Draw(g.t, "joinlegops")
+	n := 0+Uniform(g.t, 3, "joinlegops")
 	for i := 0; i < n; i++ {
 		switch g.intn(6, "joinlegop") {
 		case 0, 1:
@@ -906,7 +906,7 @@ func (g *G) joinOp(s *st) string {
 	var args []string
 	out := append([]*Field(nil), base.fields...)
 	if style != "anti " {
-		na := rapid.IntRange(0, 2).Draw(g.t, "njoinargs")
+		na := 0+Uniform(g.t, 3, "njoinargs")
 		used := map[string]bool{}
 		for i := 0; i < na; i++ {
 			name := g.freshName(s)
